@@ -180,6 +180,31 @@ func init() {
 			e.leafComp("E:string", types.Typ[types.String])
 			return uf("slicesContains", BoolS, e.comp(c.rd, "E:string"), SliceBase(s), SliceOff(s), SliceLen(s), c.args[1])
 		}
+		// slices.Delete(s, i, j) on a []string with j == i+1: the elements behind
+		// the removed one move down by one, the rest of the backing array is
+		// unspecified (Go clears it), the result shares the backing array
+		m["slices.Delete"] = func(c *CallCtx) *Term {
+			s, i, j := c.args[0], c.args[1], c.args[2]
+			st, isSlice := c.argT[0].Underlying().(*types.Slice)
+			if !isSlice || e.tr.sortOf(st.Elem()) != StringS || !Eq(j, Add(i, IntT(1))).IsTrue() {
+				panic(outsideSubset("slices.Delete other than removing one element of a []string"))
+			}
+			e.leafComp("E:string", types.Typ[types.String])
+			old := e.comp(c.st, "E:string")
+			nw := Fresh("del:E:string", old.Sort)
+			e.heapBound[nw.SVal] = e.comp(c.st, allocComp)
+			l := BoundVar(LocS)
+			e.assume(c.pc, Forall([]*Term{l}, Implies(Neq(LocObj(l), LocObj(SliceBase(s))), Eq(Select(nw, l), Select(old, l)))))
+			k := BoundVar(IntS)
+			at := func(arr, idx *Term) *Term {
+				return Select(arr, ElemLoc(SliceBase(s), ElemIndex(SliceOff(s), idx)))
+			}
+			e.assume(c.pc, Forall([]*Term{k}, Implies(And(Le(IntT(0), k), Lt(k, i)), Eq(at(nw, k), at(old, k)))))
+			k2 := BoundVar(IntS)
+			e.assume(c.pc, Forall([]*Term{k2}, Implies(And(Le(i, k2), Lt(k2, Sub(SliceLen(s), IntT(1)))), Eq(at(nw, k2), at(old, Add(k2, IntT(1)))))))
+			e.setComp(c.st, "E:string", nw)
+			return MkSlice(SliceBase(s), SliceOff(s), Sub(SliceLen(s), IntT(1)), SliceCap(s))
+		}
 		// ---------------- fileglob (assumed) ----------------
 		fg := "github.com/goreleaser/fileglob"
 		m[fg+".Glob"] = func(c *CallCtx) *Term {
